@@ -33,7 +33,7 @@ PROPERTY = 'C02'
 BOUND = (
     X.BOUND_TEXT
     + '; plus data-flow runs (synthetic outputs = function of inputs, harness-side store, success-only replies): '
-    'quick 2 per curated graph x {1,2 targets}, thorough 6 per graph of the full family, 10..30 external '
+    'quick 2 per curated graph x {1,2 targets}, thorough 3 per universe, 10..30 external '
     'events each (root changes with any subset of values, re-requests, completions in random order), then '
     'run to quiescence and compared with a from-scratch evaluation'
 )
@@ -375,7 +375,7 @@ def run(tier, seed):
             j['dataflow'] = 2 if (u['workers'] == 2 and u['targets']) else 0
             j['df_events'] = 12
         else:
-            j['dataflow'] = 6
+            j['dataflow'] = 3
             j['df_events'] = 10 + 5 * (n % 5)
     return X.run_tier(PROPERTY, tier, seed, jobs, _job, Mon, X.RULE, CLAUSES, t0, special=special_replay)
 
